@@ -27,7 +27,7 @@ package dig
 // A decoded cell is empty or a sub-range of the input bytes (inside len, not merely cap).
 //@ spec within(s []byte, inp []byte) bool = len(s) == 0 || (base(s) == base(inp) && off(inp) <= off(s) && off(s) + len(s) <= off(inp) + len(inp))
 
-//@ func (*Result).GetRow props=C10,C09
+//@ func (*Result).GetRow props=C10,C09,C11
 //@   requires resInv(r)
 //@   ensures [cleared] forall j int :: 0 <= j && j < len(result) ==> len(result[j]) == 0
 //@   ensures [frame] r.ncols == old(r.ncols) && r.n == old(r.n) + 1 && r.t == old(r.t) && r.singleton == old(r.singleton)
